@@ -22,6 +22,8 @@ import (
 // that reloads on every notification makes the originator's decisions after every call
 // (auto-save on).
 
+var c15PeerNo int
+
 func c15History(c *Ctx, id string, conf machConf, wkind string, autosave, autonotify bool, n int, opts machGenOpts) {
 	us := machUniverses(conf)
 	m := newMach(conf, autosave, autonotify, wkind, nil)
@@ -30,6 +32,12 @@ func c15History(c *Ctx, id string, conf machConf, wkind string, autosave, autono
 	pm, _ := model.NewModelFromString(conf.Text)
 	peer, _ := casbin.NewEnforcer(pm)
 	peer.SetAdapter(m.A)
+	// every second peer is a listen-only replica: it announces nothing itself (auto-notify off)
+	// but follows the announcements of the others all the same
+	c15PeerNo++
+	if c15PeerNo%2 == 1 {
+		peer.EnableAutoNotifyWatcher(false)
+	}
 	// the peer has a watcher of the same kind; a notification reaches it as a call of the
 	// callback registered on that watcher.  SetWatcher registers a default callback (reload)
 	// for every watcher that is not a WatcherEx; for a WatcherEx the application does.
